@@ -70,6 +70,8 @@ class OptimResults(object):
         self.EXIT_TR_INCREASE_ERROR = EXIT_TR_INCREASE_ERROR
         self.EXIT_LINALG_ERROR = EXIT_LINALG_ERROR
         self.EXIT_FALSE_SUCCESS_WARNING = EXIT_FALSE_SUCCESS_WARNING
+        self.EXIT_TR_INCREASE_WARNING = EXIT_TR_INCREASE_WARNING
+        self.EXIT_EVAL_ERROR = EXIT_EVAL_ERROR
 
     def __str__(self):
         # Result of calling print(soln)
